@@ -627,5 +627,9 @@ fn c14_twin() {
 #[path = "/verif/harness/codec.rs"]
 mod codec;
 
+#[path = "/verif/harness/digest.rs"]
+mod digest;
+
 #[cfg(test)]
 include!("/verif/replays/_gen/root.rs");
+
